@@ -14,6 +14,7 @@ ASSUME = base.assumptions('A-PY', 'A-BAG', 'A-GEN', 'A-PURE', 'A-PROMPT') + [
     'solve() precondition: requested form names are distinct and not loaded yet; field_names is the default []',
     'a value may be rewritten only by a re-evaluation of the same line (equal by stability of the oracle, A-PURE)']
 
+ALWAYS = ('no-internal-error', 'propagated-exception', 'subset')
 SELECT = {
     'C01': lambda l: True,
     'C03': lambda l: any(k in l for k in ('evaluated-against', 'stored-value-is', 'only-grow', 'never-removed', 'justified', 'met-fields-have-values', 'met-inputs-are-provided', 'announced-as-met', 'untouched')),
@@ -57,7 +58,7 @@ def gather(prop, tier, seed, extra_tasks=()):
     tasks += list(extra_tasks)
     obs = oblig.run_tasks(tasks, jobs=4)
     sel = SELECT[prop]
-    solver_obs = [o for o in obs if o.id.startswith('SOLVER/') and sel(o.id.split('/', 1)[1])]
+    solver_obs = [o for o in obs if o.id.startswith('SOLVER/') and (sel(o.id.split('/', 1)[1]) or any(k in o.id for k in ALWAYS))]
     main_obs = []
     for o in obs:
         if o.id.startswith('MAIN/') and o.note == prop:
@@ -67,5 +68,15 @@ def gather(prop, tier, seed, extra_tasks=()):
                 o2.replay = {'reproduced': False, 'note': 'event log of the symbolic run of the real habutax.solve; see witness'}
             main_obs.append(o2)
     other = [o for o in obs if not o.id.startswith(('SOLVER/', 'MAIN/'))]
-    out = su.finish_with_refutation(prop, solver_obs, lambda o: True, seed, tier) + main_obs + other
+    small = []
+    if prop in ('C01', 'C03', 'C04'):
+        from . import small_units
+        for o in small_units.all_small():
+            if prop in o.note.split(','):
+                o.id = o.id.replace('SMALL/', f'{prop}/small/')
+                small.append(o)
+    for o in solver_obs:
+        o.id = o.id.replace('SOLVER/', f'{prop}/solver/')
+    solver_obs = oblig.apply_baseline(prop, solver_obs + small + main_obs + other)
+    out = su.finish_with_refutation(prop, solver_obs, lambda o: True, seed, tier)
     return out
